@@ -38,6 +38,11 @@ pub struct Plan20 {
     /// exhaustive floor for bits = 2 (all parameters, all histories of length <= 2)
     #[serde(default)]
     pub sweep: bool,
+    /// storage tape for the IdpfInputs handed to the constructor (offsets into the first storage word; values >= 128:
+    /// inputs cut down from longer bit vectors, with dead bits left in the last word); with a tape the aggregators get
+    /// the parameter object AS BUILT (a co-located collector) instead of the decoded one
+    #[serde(default)]
+    pub tape: Vec<u8>,
 }
 
 pub struct Check20;
@@ -236,7 +241,8 @@ fn gen(seed: u64) -> Plan20 {
             }
         }
     }
-    Plan20 { bits, reqs, deliveries, sweep: false }
+    let tape: Vec<u8> = if rng.chance(1, 3) { (0..3 + rng.usize_below(8)).map(|_| match rng.below(3) { 0 => 0, 1 => rng.below(64) as u8, _ => 128 + rng.below(128) as u8 }).collect() } else { Vec::new() };
+    Plan20 { bits, reqs, deliveries, sweep: false, tape }
 }
 
 // ---- execution ---------------------------------------------------------------------------------
@@ -252,16 +258,30 @@ fn lib_valid(ctx: &mut Ctx, cur: &Poplar1AggregationParam, prev: &[Poplar1Aggreg
 }
 
 fn exec(p: &Plan20, ctx: &mut Ctx) -> Result<(), String> {
-    ctx.sig.str("C20").u64(p.bits as u64).u64(p.reqs.len() as u64);
+    crate::inst_poplar::set_offsets(p.tape.clone());
+    let r = exec_inner(p, ctx);
+    if crate::inst_poplar::clear_offsets() > 0 {
+        ctx.probe("unaligned_or_residual_prefix_storage");
+    }
+    r
+}
+
+fn exec_inner(p: &Plan20, ctx: &mut Ctx) -> Result<(), String> {
+    ctx.sig.str("C20").u64(p.bits as u64).u64(p.reqs.len() as u64).u64(p.tape.is_empty() as u64);
     ctx.nontrivial = true;
     if p.sweep {
         return sweep_bits2(ctx);
     }
     // requests -> bytes (constructor acceptance vs reference predicate)
     let mut wire: Vec<Option<Vec<u8>>> = Vec::new();
+    // parameter objects as the constructor built them (same index as `wire`)
+    let mut built: Vec<Option<Poplar1AggregationParam>> = Vec::new();
     for r in &p.reqs {
         match r {
-            Req::Raw { b } => wire.push(Some(b.0.clone())),
+            Req::Raw { b } => {
+                wire.push(Some(b.0.clone()));
+                built.push(None);
+            }
             Req::Prefixes { p: pre } => {
                 let inputs = pre.iter().map(|s| str_to_input(s)).collect();
                 let got = guard("Poplar1AggregationParam::try_from_prefixes", || Poplar1AggregationParam::try_from_prefixes(inputs));
@@ -287,6 +307,7 @@ fn exec(p: &Plan20, ctx: &mut Ctx) -> Result<(), String> {
                         }
                         ctx.counters.inc("c20.constructor_accepts");
                         wire.push(Some(b));
+                        built.push(Some(ap));
                     }
                     Ok(Err(_)) => {
                         if want {
@@ -295,6 +316,7 @@ fn exec(p: &Plan20, ctx: &mut Ctx) -> Result<(), String> {
                         }
                         ctx.counters.inc("c20.constructor_refuses");
                         wire.push(None);
+                        built.push(None);
                     }
                 }
             }
@@ -330,8 +352,15 @@ fn exec(p: &Plan20, ctx: &mut Ctx) -> Result<(), String> {
                 return Ok(());
             }
         }
-        let cur = dec.unwrap();
+        let mut cur = dec.unwrap();
         let curs = want.unwrap();
+        // with a storage tape the collector is co-located: the aggregator judges (and remembers) the object as built
+        if !p.tape.is_empty() {
+            if let Some(Some(b)) = built.get_mut(*i as usize % wire.len()).map(|x| x.take()) {
+                ctx.counters.inc("c20.judged_as_built");
+                cur = b;
+            }
+        }
         let Some(got) = lib_valid(ctx, &cur, &prev[a]) else { return Ok(()) };
         let exp = ref_valid(&curs, &prev_ref[a]);
         ctx.sig.u64(got as u64).u64(prev[a].len().min(4) as u64);
@@ -441,14 +470,14 @@ impl Check for Check20 {
         Ok((out, if keep { Some(serde_json::to_value(&p).unwrap()) } else { None }))
     }
     fn fixed_plans(&self, _tier: Tier) -> Vec<Value> {
-        let mut out = vec![serde_json::to_value(Plan20 { bits: 2, reqs: vec![], deliveries: vec![], sweep: true }).unwrap()];
+        let mut out = vec![serde_json::to_value(Plan20 { bits: 2, reqs: vec![], deliveries: vec![], sweep: true, tape: vec![] }).unwrap()];
         // size limits of the constructor / decoder: prefix lengths around 2^16 (level 65535 is the
         // largest admissible one), single prefixes and pairs
         for l in [65_534usize, 65_535, 65_536, 65_537] {
             let a = "0".repeat(l);
             let mut b = "0".repeat(l - 1);
             b.push('1');
-            out.push(serde_json::to_value(Plan20 { bits: 17, reqs: vec![Req::Prefixes { p: vec![a.clone()] }, Req::Prefixes { p: vec![a, b] }], deliveries: vec![(0, 0), (1, 1), (0, 1)], sweep: false }).unwrap());
+            out.push(serde_json::to_value(Plan20 { bits: 17, reqs: vec![Req::Prefixes { p: vec![a.clone()] }, Req::Prefixes { p: vec![a, b] }], deliveries: vec![(0, 0), (1, 1), (0, 1)], sweep: false, tape: vec![] }).unwrap());
         }
         out
     }
